@@ -78,6 +78,40 @@ def parity(p):
     return s
 
 
+def _pow2(q):
+    """q = +-2^k ?"""
+    q = abs(q)
+    if q == 0:
+        return False
+    n, d = q.numerator, q.denominator
+    return (n & (n - 1)) == 0 and (d & (d - 1)) == 0
+
+
+def plu_must_fail(n, A0):
+    """Structural classes on which a_real_plu must report failure in binary64 as well (no rounding can hide
+    the singularity): a zero column, a zero row, two rows equal up to an exact power-of-two factor (all
+    entries far from the overflow/underflow range, so that scaling commutes with rounding)."""
+    LO, HI = Fr(1, 2 ** 900), Fr(2 ** 900)
+    for c in range(n):
+        if all(A0[r][c] == 0 for r in range(n)):
+            return "zero column %d" % c
+    for r in range(n):
+        if all(x == 0 for x in A0[r]):
+            return "zero row %d" % r
+    safe = [all(x == 0 or LO <= abs(x) <= HI for x in A0[r]) for r in range(n)]
+    for r1 in range(n):
+        for r2 in range(r1 + 1, n):
+            if not (safe[r1] and safe[r2]):
+                continue
+            k = next((c for c in range(n) if A0[r1][c] != 0), None)
+            if k is None or A0[r2][k] == 0:
+                continue
+            q = A0[r2][k] / A0[r1][k]
+            if _pow2(q) and all(A0[r2][c] == q * A0[r1][c] for c in range(n)):
+                return "row %d = %s * row %d" % (r2, q, r1)
+    return None
+
+
 class Acc:
     def __init__(self):
         self.fail = []
@@ -164,8 +198,9 @@ def check(case, lines):
                     acc.bad("plu/rc", "return code %d" % rc)
             else:
                 stats["plu_ok"] = 1
-                if tag in MUST_FAIL_PLU:
-                    acc.bad("plu/singular-accepted", "exactly singular input (%s) reported as success" % tag)
+                why = plu_must_fail(n, A0)
+                if why:
+                    acc.bad("plu/singular-accepted", "exactly singular input (%s) reported as success" % why)
                 okp = sorted(p) == list(range(n))
                 if not okp:
                     acc.bad("plu/perm", "p = %s is not a permutation" % p)
@@ -261,7 +296,9 @@ def check(case, lines):
             else:
                 stats["ldl_ok"] = 1
                 if tag in MUST_FAIL_LDL:
-                    acc.bad("ldl/zero-pivot-accepted", "input with an exactly zero pivot reported as success")
+                    acc.bad("ldl/zero-pivot-accepted", "input constructed with an exactly zero pivot reported as success")
+                if n >= 1 and abs(A0[0][0]) < DBL_MIN:
+                    acc.bad("ldl/zero-pivot-accepted", "|a[0][0]| < DBL_MIN (first pivot vanishes) reported as success")
                 if finite(LDb):
                     LD = mat(fr(LDb), n)
                     L = [[LD[r][c] if c < r else (Fr(1) if c == r else Fr(0)) for c in range(n)] for r in range(n)]
@@ -333,7 +370,11 @@ def check(case, lines):
             else:
                 stats["llt_ok"] = 1
                 if tag in MUST_FAIL_LLT:
-                    acc.bad("llt/nonpositive-accepted", "input with a non-positive Cholesky pivot reported as success")
+                    acc.bad("llt/nonpositive-accepted", "input constructed with a non-positive Cholesky pivot reported as success")
+                for i in range(n):
+                    if A0[i][i] < DBL_MIN:
+                        acc.bad("llt/nonpositive-accepted", "a[%d][%d] = %g < DBL_MIN (pivot cannot reach the threshold) reported as success" % (i, i, float(A0[i][i])))
+                        break
                 if finite(LLb):
                     LL = mat(fr(LLb), n)
                     L = [[LL[r][c] if c <= r else Fr(0) for c in range(n)] for r in range(n)]
